@@ -106,7 +106,10 @@ class C08:
             return d
         if ty == "plan":
             d = {}
-            self.maybe(rng, d, "entries", [dict({"name": rng.choice(STRS)}, **({"metadata": self.meta(rng)} if rng.random() < 0.6 else {})) for _ in range(rng.randint(0, 3))], 0.8)
+            # the lifecycle writes one entry per matched `requires`: the same name may come several times (every second
+            # document draws its names from two strings only)
+            pool = STRS if rng.random() < 0.5 else ["x", "a b"]
+            self.maybe(rng, d, "entries", [dict({"name": rng.choice(pool)}, **({"metadata": self.meta(rng)} if rng.random() < 0.6 else {})) for _ in range(rng.randint(0, 4))], 0.8)
             return d
         if ty == "layer":
             d = {}
